@@ -219,6 +219,15 @@ func (q Seq) Expand() []bool {
 				out[i] = !out[i]
 			}
 		}
+	case "debruijn": // a binary de Bruijn cycle of order A (every A-bit pattern exactly once per period), repeated, rotated by B, complemented if Pos[0]==1
+		k := q.A
+		cyc := deBruijn(k)
+		for i := range out {
+			out[i] = cyc[(i+q.B)%len(cyc)]
+			if len(q.Pos) > 0 && q.Pos[0] == 1 {
+				out[i] = !out[i]
+			}
+		}
 	case "balanced": // exactly n/2 ones, shuffled
 		for i := range out {
 			out[i] = i < n/2
@@ -231,6 +240,35 @@ func (q Seq) Expand() []bool {
 		panic("gen: unknown family " + q.Family)
 	}
 	return out
+}
+
+// deBruijn returns the lexicographically least binary de Bruijn cycle of order k (length 2^k), by the
+// "prefer-one is avoided" Lyndon-word concatenation (FKM algorithm).
+func deBruijn(k int) []bool {
+	if k < 1 {
+		k = 1
+	}
+	var seq []bool
+	a := make([]int, k+1)
+	var db func(t, p int)
+	db = func(t, p int) {
+		if t > k {
+			if k%p == 0 {
+				for i := 1; i <= p; i++ {
+					seq = append(seq, a[i] == 1)
+				}
+			}
+			return
+		}
+		a[t] = a[t-p]
+		db(t+1, p)
+		for j := a[t-p] + 1; j < 2; j++ {
+			a[t] = j
+			db(t+1, t)
+		}
+	}
+	db(1, 1)
+	return seq
 }
 
 func fillUniform(out []bool, r *Rng) {
@@ -271,7 +309,7 @@ func Unpack(data []byte) []bool {
 
 // Families lists the general-purpose families drawn by DrawSeq.
 var Families = []string{"explicit", "uniform", "biased", "constant", "alternating", "periodic", "sparse",
-	"markov", "transition", "longrun", "runs", "walk", "tone", "balanced"}
+	"markov", "transition", "longrun", "runs", "walk", "tone", "balanced", "debruijn"}
 
 // DrawSeq draws a recipe of length n from the given families (nil = all).
 // "explicit" is only used for n <= 4096 (bits are rapid draws and shrink structurally).
@@ -333,6 +371,10 @@ func DrawSeq(t *rapid.T, n int, families []string) Seq {
 		z := int(math.Round(math.Pow(float64(n), e)))
 		q.A = max(1, min(n, z))
 		q.B = rapid.IntRange(0, 1).Draw(t, "down")
+	case "debruijn":
+		q.A = rapid.IntRange(1, 8).Draw(t, "order")
+		q.B = rapid.IntRange(0, 1<<uint(q.A)-1).Draw(t, "rotation")
+		q.Pos = []int{rapid.IntRange(0, 1).Draw(t, "complement")}
 	case "tone":
 		q.A = rapid.IntRange(1, max(1, n/2)).Draw(t, "cycles")
 		q.F = rapid.SampledFrom([]float64{0, 0.3, 1.1, 2.5}).Draw(t, "phase")
